@@ -30,6 +30,23 @@ func genPkgPool(t *rapid.T, allowInvalid bool) []PkgDesc {
 				d.Scopes = []string{"Cluster"}
 			}
 		}
+		// images of the same package name may carry different configuration schemas (extra property with a default) and
+		// templates that print the admitted value
+		if rapid.IntRange(0, 2).Draw(t, "schemavariant") == 0 {
+			d.SchemaVariant = rapid.IntRange(1, 2).Draw(t, "variant")
+		}
+		if rapid.IntRange(0, 1).Draw(t, "useextra") == 0 {
+		pick:
+			for fi := range d.Files {
+				if !d.Files[fi].Template {
+					continue
+				}
+				for oi := range d.Files[fi].Objs {
+					d.Files[fi].Objs[oi].Tmpl = "extra"
+					break pick
+				}
+			}
+		}
 		out = append(out, d)
 	}
 	return out
